@@ -138,7 +138,7 @@ class BasicBlock:
         # Rows of column vectors arrive as size-1 arrays; newer numpy versions
         # no longer convert those to scalars implicitly.
         args = tuple(
-            arg.item() if isinstance(arg, np.ndarray) and arg.size == 1 else arg
+            arg.flat[0] if isinstance(arg, np.ndarray) and arg.size == 1 else arg
             for arg in args
         )
         temporary_values = {}
